@@ -97,14 +97,10 @@ Definition runes (bs : list byte) : list N := runes_fuel (length bs) bs.
 Definition utf8_ok (bs : list byte) : bool :=
   let rs := runes bs in forallb is_scalar rs && bytes_eqb (concat (map utf8 rs)) bs.
 
-Definition char_readable (r : N) : bool :=
-  is_scalar r &&
-  match special_char r with
-  | Some _ => true
-  | None => if (r <? 32)%N then true
-            else if (r <? 128)%N then match act T03 MChar r with ASkip => true | _ => false end
-            else true
-  end.
+(* characters: every Unicode scalar (a rune that is no scalar - a surrogate - is not a character of the property).
+   The NUL character is printed by name (repo_fixes C03-12), the characters the reader's character mode rejects
+   after #\ by code (repo_fixes C03-13). *)
+Definition char_readable (r : N) : bool := is_scalar r.
 
 Definition pipe_ok_byte (b : byte) : bool :=       (* bytes a |name| holds as they are; the others are escaped *)
   negb (b =? 124)%N && negb (b =? 92)%N && ((32 <=? b)%N || (b =? 9)%N || (b =? 10)%N || (b =? 13)%N).
